@@ -3,7 +3,7 @@
 # quick checks of the given properties, undo the change.  Prints DETECTED/MISSED.
 set -u
 P=$1; shift
-cd /verif
+cd ${VDIR:-/verif}
 git -C /repo diff --quiet || { echo "/repo is dirty"; exit 9; }
 git -C /repo apply "$P" || { echo "patch does not apply"; exit 8; }
 for prop in "$@"; do
